@@ -35,7 +35,7 @@ class ExprReplayer:
     # -- table --------------------------------------------------------------------------------------
     def set_table(self, msg):
         cols = list(zip(msg['cols'], msg['types']))
-        rows = [tuple(bql.to_py(v) for v in r) + (i,) for i, r in enumerate(msg['table'], 1)]
+        rows = [tuple((bql.to_py_object if t == 'obj' else bql.to_py)(v) for v, (_, t) in zip(r, cols)) + (i,) for i, r in enumerate(msg['table'], 1)]
         self.table = ht.HarnessTable('t', [(n, {'dec': 'Decimal', 'obj': 'object'}.get(t, t)) for n, t in cols] + [('rid', 'int')], rows)
         self.conn = ht.connection(self.table)
         self.schema = dict(cols)
@@ -378,7 +378,7 @@ def random_cases(ctx, path, ncases, maxdepth, maxrows):
         while cid < ncases:
             rows = gen.table(ctx.rng.randint(0, maxrows))
             cols = [(nm, {'dec': 'Decimal', 'obj': 'object'}.get(t, t)) for nm, t in RandomExprs.COLS] + [('rid', 'int')]
-            pyrows = [tuple(bql.to_py(r[nm]) for nm, _ in RandomExprs.COLS) + (i,) for i, r in enumerate(rows, 1)]
+            pyrows = [tuple((bql.to_py_object if t == 'obj' else bql.to_py)(r[nm]) for nm, t in RandomExprs.COLS) + (i,) for i, r in enumerate(rows, 1)]
             conn = ht.connection(ht.HarnessTable('t', cols, pyrows))
             for _ in range(25):
                 cid += 1
